@@ -163,6 +163,9 @@ pub fn replay(path: &str) -> ! {
     let text = std::fs::read_to_string(path).unwrap_or_else(|e| mcx::machinery(format!("{path}: {e}")));
     let v: serde_json::Value = serde_json::from_str(&text).unwrap_or_else(|e| mcx::machinery(format!("{path}: {e}")));
     let w = &v["witness"];
+    if v["property"].as_str() == Some("C15") {
+        crate::c15::replay(w);
+    }
     let name = w["scenario"].as_str().unwrap_or("");
     let choices: Vec<u32> = w["choices"].as_array().map(|a| a.iter().map(|x| x.as_u64().unwrap_or(0) as u32).collect()).unwrap_or_default();
     for tier in [Tier::Quick, Tier::Thorough] {
